@@ -715,6 +715,16 @@ impl Peer {
                         progressed |= c.pump_read(now);
                         let (msgs, _, _) = super::h1::parse_all(&c.rx, false, c.eof || c.reset);
                         while served[ci] < msgs.len() {
+                            // `/die/<n>`: the first n bytes of a 1000-byte response, then the connection is closed
+                            if let Some(n) = msgs[served[ci]].target().strip_prefix("/die/").and_then(|n| n.parse::<usize>().ok()) {
+                                let full = format!("{response_head}\r\nContent-Length: 1000\r\n\r\n{}", "x".repeat(1000)).into_bytes();
+                                c.tx.extend_from_slice(&full[..n.min(full.len())]);
+                                served[ci] += 1;
+                                c.pump_write();
+                                c.close();
+                                progressed = true;
+                                continue;
+                            }
                             // `/size/<n>` asks for an n-byte coded body
                             let sized = msgs[served[ci]].target().strip_prefix("/size/").and_then(|n| n.parse::<usize>().ok()).map(|n| super::h1::coded_body((n % 251) as u8, n));
                             let body: &[u8] = sized.as_deref().unwrap_or(&body);
